@@ -52,12 +52,30 @@ UNBOUND_NAMES = {"nofn", "nopred", "bit_length", "real", "count", "index", "conj
 #   ["errb"]  (1/0 == 1)
 
 
+# construct -> production indices per type in AstGen.int_ / AstGen.bool_
+AST_FEATURES: Dict[str, Dict[str, List[int]]] = {
+    "call": {"int": [0, 1, 2, 3], "bool": [0, 1, 2]}, "shadow": {"int": [4], "bool": [3]},
+    "add": {"int": [5, 9]}, "cond": {"int": [6], "bool": [9]}, "index": {"int": [7]},
+    "div0": {"int": [8]}, "and_or": {"bool": [4, 5]}, "not": {"bool": [6]}, "cmp": {"bool": [7, 8]},
+    "macro": {"bool": [10]},
+}
+
+
 class AstGen:
     def __init__(self, r: Any, cfg: Dict[str, Any]) -> None:
         self.r = r
         self.cfg = cfg
         self.vars: List[str] = []
         self.n_calls = 0
+
+    def _pick(self, ty: str, n: int) -> int:
+        """Swarm testing: the constructs featured by this run are chosen far more often."""
+        feats = self.cfg.get("features") or []
+        if feats and self.r.random() < 0.45:
+            ks = [k for f in feats for k in AST_FEATURES.get(f, {}).get(ty, [])]
+            if ks:
+                return self.r.choice(ks)
+        return self.r.randrange(n)
 
     def call(self, ty: str, d: int) -> List[Any]:
         r = self.r
@@ -101,7 +119,7 @@ class AstGen:
             if self.vars and r.random() < 0.5:
                 return ["var", r.choice(self.vars)]
             return ["int", r.choice([0, 1, 2, 3, 4, 5, 7, 10])]
-        k = r.randrange(10)
+        k = self._pick("int", 10)
         if k <= 3 and self.n_calls < 6:
             return self.call("int", d)
         if k == 4 and self.cfg["shadow"] and self.n_calls < 6:
@@ -110,7 +128,7 @@ class AstGen:
             return ["add", self.int_(d - 1), self.int_(d - 1)]
         if k == 6:
             return ["cond", self.bool_(d - 1), self.int_(d - 1), self.int_(d - 1)]
-        if k == 7:
+        if k == 7 or (k == 9 and r.random() < 0.5):
             return ["idx", self.list_(d - 1), r.choice([0, 0, 1, 3])]
         if k == 8 and r.random() < 0.5:
             return ["div0", self.int_(d - 1)]
@@ -118,10 +136,12 @@ class AstGen:
 
     def list_(self, d: int) -> List[Any]:
         r = self.r
-        if d <= 0 or r.random() < 0.4:
+        if d <= 0 or r.random() < 0.3:
             return ["ilist", [r.randrange(6) for _ in range(r.randrange(0, 4))]]
-        if r.random() < 0.3:
-            return ["list", [self.int_(d - 1) for _ in range(r.randrange(1, 4))]]
+        if r.random() < 0.6:
+            # a list literal whose elements are computed (host calls among them)
+            return ["list", [self.call("int", 1) if (self.n_calls < 6 and r.random() < 0.5)
+                             else self.int_(d - 1) for _ in range(r.randrange(1, 4))]]
         v = r.choice(["v", "w", "v", "v", "f", "g", "p"])
         src = self.list_(d - 1)
         self.vars.append(v)
@@ -142,7 +162,7 @@ class AstGen:
         r = self.r
         if d <= 0 or r.random() < 0.15:
             return ["bool", r.random() < 0.5]
-        k = r.randrange(12)
+        k = self._pick("bool", 12)
         if k <= 2 and self.n_calls < 6:
             return self.call("bool", d)
         if k == 3 and self.cfg["shadow"] and self.n_calls < 6:
@@ -199,12 +219,16 @@ def generate(seed: int, tier: str = "quick") -> Dict[str, Any]:
         "n_names": rc.choice([1, 2, 3, 4]),
         "shadow": rc.random() < 0.4,
         "unbound_share": rc.choice([0.0, 0.0, 0.1, 0.3]),
-        "fault_class": rc.choice(["none", "none", "faults", "faults"]),
+        "fault_class": rc.choice(["none", "none", "faults", "faults", "faults"]),
         "depth": rc.choice([1, 2, 2, 3, 3, 4]),
         "n_programs": rc.choice([1, 1, 2, 3, 4]),
         # mostly one runner class per history: an Environment of the other class rebuilds the
         # Lark parser (85 ms), which would dominate the cost of a run
         "runners": rc.choice(["I", "C", "I", "C", "mixed"]),
+        "features": rc.sample(sorted(AST_FEATURES), rc.choice([0, 0, 1, 2])),
+        # all injected faults of the run are of one kind (or mixed), always / argument-dependent
+        "fault_focus": rc.choice([None, None] + FAULT_KINDS),
+        "fault_always": rc.random() < 0.5,
     }
     programs = []
     for i in range(cfg["n_programs"]):
@@ -217,7 +241,8 @@ def generate(seed: int, tier: str = "quick") -> Dict[str, Any]:
             if cfg["fault_class"] == "faults":
                 for n in src["supplied"]:
                     if rf.random() < 0.45:
-                        faults2[n] = {"kind": rf.choice(FAULT_KINDS), "when": rf.choice([None, None, 0, 1, 2, 3])}
+                        faults2[n] = {"kind": cfg["fault_focus"] or rf.choice(FAULT_KINDS),
+                                      "when": None if cfg["fault_always"] else rf.choice([None, None, 0, 1, 2, 3])}
             programs.append(dict(src, faults=faults2, reuse_of=src.get("reuse_of", j)))
             continue
         g = AstGen(rw, cfg)
@@ -241,9 +266,9 @@ def generate(seed: int, tier: str = "quick") -> Dict[str, Any]:
         faults: Dict[str, Dict[str, Any]] = {}
         if cfg["fault_class"] == "faults" and supplied:
             for n in supplied:
-                if rf.random() < 0.45:
-                    faults[n] = {"kind": rf.choice(FAULT_KINDS),
-                                 "when": rf.choice([None, None, 0, 1, 2, 3])}
+                if rf.random() < 0.65:
+                    faults[n] = {"kind": cfg["fault_focus"] or rf.choice(FAULT_KINDS),
+                                 "when": None if cfg["fault_always"] else rf.choice([None, None, 0, 1, 2, 3])}
         programs.append({
             "runner": rw.choice(["I", "C"]) if cfg["runners"] == "mixed" else cfg["runners"],
             "ast": ast,
